@@ -324,6 +324,37 @@ func runC03(w *World, r *Report, tier string) {
 	// ---- R3 reply classification
 	c03Replies(w, r, fErr)
 
+	// ---- R5 failures are reported: the error of each connection step is what the entry point returns
+	r.Rule("R5", "failures are reported: in Client.connect, Client.Connect and Client.Resume the error of transport.Connect(), NewSession() and connect() is tested, and its failure edge never leads to a nil return")
+	for _, spec := range []struct {
+		fn    string
+		calls []string
+	}{
+		{"xmpp.(*Client).connect", []string{"xmpp.Transport.Connect", "xmpp.NewSession"}},
+		{"xmpp.(*Client).Connect", []string{"xmpp.Client.connect"}},
+		{"xmpp.(*Client).Resume", []string{"xmpp.Client.connect"}},
+	} {
+		f := w.Func(spec.fn)
+		for _, k := range spec.calls {
+			cs := w.callsInH(f, k)
+			if len(cs) == 0 {
+				r.Undecided("R5", spec.fn+"→"+k, w.pos(f.Pos()), "the step is not called here any more")
+				continue
+			}
+			for i, cc := range cs {
+				call, ok := cc.(*ssa.Call)
+				cons := fmt.Sprintf("%s→%s#%d", spec.fn, k, i+1)
+				if !ok {
+					r.Fail("R5", cons, w.ipos(cc), "the step runs asynchronously: its failure cannot be reported by this call")
+					continue
+				}
+				bad := errorDropped(w, call.Parent(), call)
+				r.Check(bad == "", "R5", cons, w.ipos(call), "connecting can report success although a step failed: "+bad, "error tested; its failure edge returns a non-nil error")
+			}
+		}
+	}
+	r.Floor("R5", 4)
+
 	// ---- R4 announcements
 	established, _ := intConstOf(w.Pkgs["xmpp"].Types.Scope().Lookup("StateSessionEstablished"))
 	n4 := 0
